@@ -81,7 +81,12 @@ impl Timer {
     open spec fn process_req(&self) -> bool { true }
     /// the callback may run only for the timer's own current arming and only with its current deadline
     open spec fn may_call(&self, readiness: Readiness, token: Token, e: Instant) -> bool {
-        self.reg_token() == Some(token) && self.dl() == Some(e)
+        &&& self.reg_token() == Some(token) && self.dl() == Some(e)
+        // C05 (never early, from the property): ... and only once a clock value that HAS been read is at or past that
+        // deadline. An expiry collected into the batch before the timer was re-armed (set_deadline + update from another
+        // callback of the same dispatch) still carries the timer's token: without this test it fires the callback with the
+        // new, unreached deadline (defect F5)
+        &&& exists|now: Instant| clock_read(now) && #[trigger] nanos(now) >= nanos(e)
     }
     open spec fn cb_req<CbF: FnMut(Instant, &mut ()) -> TimeoutAction>(&self, readiness: Readiness, token: Token, callback: CbF) -> bool {
         forall|e: Instant, m: &mut ()| self.may_call(readiness, token, e) ==> #[trigger] call_requires(callback, (e, m))
@@ -103,8 +108,14 @@ impl Timer {
 //@ rw R2 * <<_: Readiness>> => <<_readiness: Readiness>>
 //@ spec
         ensures
-            // exactly-once bookkeeping of the result: Drop => Remove (deadline kept), ToInstant(i) => deadline i
-            (old(self).reg_token() == Some(token) && old(self).dl() is Some) ==> exists|m0: &mut (), a: TimeoutAction|
+            // an event for the current arming either comes too early -- a clock value read here is still before the deadline
+            // (a stale expiry, collected before the timer was re-armed): nothing happens --, or the callback is called with the
+            // deadline (must-call) and its answer is booked exactly once: Drop => Remove (deadline kept), ToInstant(i) =>
+            // deadline i
+            (old(self).reg_token() == Some(token) && old(self).dl() is Some) ==> (
+                (exists|now: Instant| clock_read(now) && #[trigger] nanos(now) < nanos(old(self).dl()->Some_0)
+                    && r == Ok::<PostAction, std::io::Error>(PostAction::Continue) && final(self).dl() == old(self).dl())
+                || exists|m0: &mut (), a: TimeoutAction|
                 #[trigger] call_ensures(callback, (old(self).dl()->Some_0, m0), a) && match a {
                     TimeoutAction::Drop => r == Ok::<PostAction, std::io::Error>(PostAction::Remove) && final(self).dl() == old(self).dl(),
                     TimeoutAction::ToInstant(i) => r == Ok::<PostAction, std::io::Error>(PostAction::Continue) && final(self).dl() == Some(i),
@@ -113,7 +124,9 @@ impl Timer {
                     TimeoutAction::ToDuration(d) => (r == Ok::<PostAction, std::io::Error>(PostAction::Remove) && final(self).dl() is None)
                         || (r == Ok::<PostAction, std::io::Error>(PostAction::Continue) && (final(self).dl() matches Some(x)
                                 && exists|now: Instant| #[trigger] clock_read(now) && nanos(x) == nanos(now) + dur_ns(d))),
-                },
+                }),
+//@ entry
+        proof { broadcast use axiom_instant_cmp; }
 //@ enditem
 //@ item src/sources/timer.rs / impl EventSource for Timer / fn register props=C05
 //@ spec
